@@ -16,9 +16,11 @@ claimed = {
  "C10": "combine! of 1-3 puppets",
  "C11": "flatten over an outer puppet emitting inner puppets, push/pull/any at both levels",
  "C12": "share with 1-3 probe sinks attaching/detaching/pulling at every point, restart after end",
+ "C13": "two probe sinks subscribed to the same (non-share) output value for every operator family, from_iter and interval: TLC enumerates the two-subscription behaviours of the model; each is run on the real code together with the two solo runs driven by each subscription's own decisions; the projection of the two-subscription trace onto each subscription must equal the solo trace",
  "C14": "from_iter, map/filter/scan/take/skip, concat!, flatten over pull-mode puppets (each Pull answered inside the call or deferred), sinks sending at most one Pull per message received",
  "C15": "from_iter over iterators of length 0-3 and the unbounded one, 1-2 probe sinks, every pull/dispose pattern",
  "C16": "interval with periods 1-2, 1-3 subscriptions, mock Nurse+Timer with virtual clock, spawn failures Spawn/Closed",
+ "C20": "all sequential families, sources, interval and pipelines replayed on three builds/configurations of the real code (feature off; on without subscriber; on with a TRACE subscriber); the three traces (including closure-invocation events) must be equal event for event",
  "C17": GEN + "; every expect/unwrap/panic! site is a branch of the model",
 }
 checks = []
